@@ -109,10 +109,9 @@ impl From<SelectorParseError<'_>> for SelectorError {
                     Self::UnexpectedTokenInAttribute
                 }
                 SelectorParseErrorKind::ClassNeedsIdent(_) => Self::InvalidClassName,
-                SelectorParseErrorKind::InvalidState => {
-                    debug_assert!(false, "invalid state");
-                    Self::UnsupportedSyntax
-                }
+                // NOTE: reachable with user input: the parser reports a pseudo-element
+                // in a position where it is not allowed (e.g. `a:not(::x)`) this way.
+                SelectorParseErrorKind::InvalidState => Self::UnsupportedSyntax,
             },
         }
     }
